@@ -109,10 +109,49 @@ def prec_lattice(tier):
     out += setsym_lattice()
     out += edge_lattice()
     out += regress_lattice()
+    out += multidef_lattice()
     if tier == "quick":
         # fixed, seed-independent slice
         keep = [p for k, p in enumerate(out) if p["family"] != "F-prec" or k % 11 == 0]  # stride coprime with every factor
         return keep
+    return out
+
+
+# ------------------------------------------------------------------ options defined in several places
+def multidef_lattice():
+    """An option defined twice (inside `if G1` and inside a menu depending on G2): prompts, defaults and ranges of the
+    two definitions are merged in definition order, each under its own inherited dependencies; visibility is the
+    maximum over the definitions that have a prompt."""
+    out = []
+    for typ, p1, p2, rng2, sel in itertools.product(("bool", "int", "string"), (0, 1), (0, 1, 2), (0, 1), (0, 1)):
+        if rng2 and typ != "int":
+            continue
+        if sel and typ != "bool":
+            continue
+        lit = {"bool": (["y"], ["n"]), "int": (C("3"), C("7")), "string": (C("one"), C("two"))}[typ]
+        users = {"bool": [NOVAL, "y", "n"], "int": [NOVAL, "5", "100"], "string": [NOVAL, "x", ""]}[typ]
+        ents, order, vars_ = [], [], []
+        for g in ("G1", "G2", "P"):
+            ents.append(gate(g))
+            order.append(["s", g])
+            vars_.append({"n": g, "kind": "sym", "cands": [NOVAL, "n"]})
+        if sel:
+            u = gate("U1", "n")
+            u["selects"].append({"t": "T", "c": S("G2")})
+            ents.append(u)
+            order.append(["s", "U1"])
+            vars_.append({"n": "U1", "kind": "sym", "cands": [NOVAL, "y"]})
+        d1 = mk_config("T", typ, prompt=(Y if p1 else None), defaults=[{"v": lit[0], "c": Y}])
+        d2 = mk_config("T", typ, prompt=(None if p2 == 0 else Y if p2 == 1 else S("P")), defaults=[{"v": lit[1], "c": Y}],
+                       ranges=([{"lo": C("1"), "hi": C("10"), "c": Y}] if rng2 else []))
+        ents.append({"k": "if", "c": S("G1"), "children": [d1]})
+        ents.append({"k": "menu", "title": "second", "dep": S("G2"), "visif": Y, "children": [d2]})
+        order.append(["s", "T"])
+        vars_.append({"n": "T", "kind": "sym", "cands": users})
+        obs_c = S("T") if typ == "bool" else ["=", S("T"), lit[1] if typ != "bool" else C("y")]
+        ents.append(mk_config("OBS", "bool", prompt=None, defaults=[{"v": Y, "c": obs_c}]))
+        order.append(["s", "OBS"])
+        out.append({"prog": ents, "ord": order, "vars": vars_, "family": "F-multidef", "point": dict(type=typ, prompt1=p1, prompt2=p2, range2=rng2, select=sel)})
     return out
 
 
